@@ -106,6 +106,7 @@ type caSys struct {
 	cache   map[string]*caEntry
 	stale   map[string]bool // a failed delete for the key is still pending: stale reads are the documented window
 	pending []*caRetry
+	perKey  bool // the node's Redis is of cluster type
 	draw    float64
 	queries int
 	n       int
@@ -119,7 +120,11 @@ func caSetup() {
 }
 
 func newCaSys(r *vrt.Run, nodes int) *caSys {
-	s := &caSys{r: r, srv: caGet(nodes), db: map[string]string{}, cache: map[string]*caEntry{}, stale: map[string]bool{}, logPos: make([]int, nodes)}
+	nsrv := nodes
+	if nsrv < 1 {
+		nsrv = 1
+	}
+	s := &caSys{r: r, srv: caGet(nsrv), db: map[string]string{}, cache: map[string]*caEntry{}, stale: map[string]bool{}, logPos: make([]int, nsrv)}
 	vrt.SetRandHook(func() (int64, bool) {
 		// the breaker's drop draw must never shed (C01/C12 cover it); the TTL jitter is the
 		// alphabet symbol; every other consumer (random task keys) keeps the deterministic PRNG
@@ -147,8 +152,14 @@ func newCaSys(r *vrt.Run, nodes int) *caSys {
 	}
 	timingWheel = tw
 	st := NewStat("verif")
-	if nodes == 1 {
-		s.c = NewNode(redis.New(s.srv[0].s.Addr()), syncx.NewSingleFlight(), st, errRowNotFound, WithExpire(caExpire), WithNotFoundExpire(caNotFound))
+	if nodes == 1 || nodes == -1 {
+		rds := redis.New(s.srv[0].s.Addr())
+		if nodes == -1 {
+			// one node whose Redis is of cluster type: multi-key deletes are issued key by key
+			rds.Type = redis.ClusterType
+			s.perKey = true
+		}
+		s.c = NewNode(rds, syncx.NewSingleFlight(), st, errRowNotFound, WithExpire(caExpire), WithNotFoundExpire(caNotFound))
 		s.nodeOf = func(string) int { return 0 }
 	} else {
 		var conf ClusterConfig
@@ -312,6 +323,9 @@ func (s *caSys) del(keys ...string) {
 				g = fmt.Sprint(n)
 			}
 		}
+		if s.perKey {
+			g = "key:" + k // a Redis of cluster type deletes, and retries, key by key
+		}
 		groups[g] = append(groups[g], k)
 	}
 	for _, ks := range groups {
@@ -330,6 +344,9 @@ func (s *caSys) processLog(op string, foreground bool) {
 			continue // commands issued by the operation itself
 		}
 		for _, e := range entries {
+			if e.cmd == "COMMAND" || e.cmd == "CLUSTER" {
+				continue // the cluster client's own housekeeping (topology, command table)
+			}
 			if e.cmd != "DEL" {
 				s.r.Failf("after %s: unexpected background command %s %v at +%v", op, e.cmd, e.args, e.at)
 				continue
@@ -542,8 +559,11 @@ func TestVerifCacheAside(t *testing.T) {
 		depth = 6
 	}
 	idx := 0
-	for _, nodes := range []int{1, 2} {
+	for _, nodes := range []int{1, 2, -1} {
 		for _, first := range ops {
+			if nodes == -1 && first != "wr2" && first != "take:k1" && first != "down:del" && first != "take:k2" {
+				continue // the cluster-type Redis differs from the plain one in multi-key deletes only
+			}
 			idx++
 			if !vrt.Shard(idx) {
 				continue
